@@ -939,7 +939,7 @@ def main():
     pinned = PINNED
     only = None
     timeout_ms = 20000
-    budget_s = 600
+    budget_s = 1500          # rand_xoshiro / rand_xorshift (the 512-bit jumps take minutes); the block units have their own budget
     wall_s, seed_budget_s = 60, 45
     a = sys.argv[2:]
     while a:
